@@ -5,6 +5,8 @@ mod boards;
 mod c03;
 mod c04;
 mod c07;
+mod c19;
+mod eventgen;
 mod c20;
 mod procsim;
 mod pwbview;
@@ -12,7 +14,7 @@ mod pwbview;
 use simcore::Check;
 
 fn main() {
-    let checks: Vec<&'static dyn Check> = vec![&c03::C03, &c04::C04, &c07::C07, &c20::C20];
+    let checks: Vec<&'static dyn Check> = vec![&c03::C03, &c04::C04, &c07::C07, &c20::C20, &c19::C19];
     let code = simcore::driver::main_entry(&checks);
     std::process::exit(code);
 }
